@@ -28,6 +28,13 @@ pub fn c16(a: &Args) {
             for op in v["hist"].as_array().unwrap_or(&vec![]) {
                 apply_pal_op(&mut p, op, &mut out);
             }
+            // TLC exports one shortest behaviour per reached palette: complete the edge coverage by inserting every colour
+            // of the model's universe into the reached palette
+            for c in [[0u8, 0, 0], [0, 0, 170], [1, 2, 3], [3, 2, 1]] {
+                let mut q = p.clone();
+                out.ev(&json!({"ev":"reset","colors":pal_colors(&q),"src":"tlc-edge"}));
+                apply_pal_op(&mut q, &json!({"op":"ins","arg":c}), &mut out);
+            }
             n_gen += 1;
         }
     }
